@@ -594,7 +594,7 @@ func checkCli(c CliCase) error {
 		// lines of the bootstrap file may end with blanks or tabs after the ';'
 		boots.WriteString(ref.Write(m) + []string{"", "", "\t", " ", " \t", "\t \t"}[(i+len(c.Boots))%6] + "\n")
 	}
-	args := []string{"compute", "support", c.Method, "-i", cli.Write(dir, "ref.nw", ref.Write(c.Ref)+"\n"), "-b", cli.Write(dir, "boot.nw", boots.String()), "-t", strconv.Itoa(c.Threads), "--silent"}
+	args := []string{"compute", "support", c.Method, "-i", cli.WriteIn(dir, "ref.nw", ref.Write(c.Ref)+"\n"), "-b", cli.WriteIn(dir, "boot.nw", boots.String()), "-t", strconv.Itoa(c.Threads), "--silent"}
 	toFile := len(c.Boots)%3 == 0
 	if toFile {
 		args = append(args, "-o", "sup.nw")
